@@ -85,6 +85,61 @@ def schedule_of(states):
     return sched, replies
 
 
+PC_LABEL = {
+    'Start': ('c08One', 'run'),
+    'FW_readdir': ('findWork', 'os.ReadDir'), 'FW_readup': ('findWork', 'os.ReadDir'),
+    'FW_parse': ('parseCountFile', 'os.ReadFile'), 'DEL': ('deleteFiles', 'os.Remove'),
+    'CR_statlocal': ('createReport', 'os.Stat'), 'CR_statready': ('createReport', 'os.Stat'),
+    'CR_mkready': ('exclusiveWrite', 'os.OpenFile'), 'CR_mklocal': ('exclusiveWrite', 'os.OpenFile'),
+    'CR_wrready': ('exclusiveWrite', 'file.Write'), 'CR_wrlocal': ('exclusiveWrite', 'file.Write'),
+    'UP_read': ('uploadReport<', 'os.ReadFile'), 'UP_lock': ('uploadReportContents', 'os.OpenFile'),
+    'UP_stat': ('uploadReportContents', 'os.Stat'), 'UP_post': ('uploadReportContents', 'http.Post'),
+    'UP_mkmark': ('uploadReportContents', 'os.WriteFile'), 'UP_wrmark': ('uploadReportContents', 'os.WriteFile.write'),
+    'UP_rmdup': ('uploadReportContents', 'os.Remove'), 'UP_rmready': ('uploadReportContents', 'os.Remove'),
+    'UP_rm4xx': ('uploadReportContents', 'os.Remove'), 'UP_unlock': ('uploadReportContents', 'os.Remove'),
+}
+
+
+def label_script(states):
+    """segment-wise, label-aligned form of a witness (see checks/c03.py); kills and arrivals are kept."""
+    settled = [st for st in states if not pending(st)]
+    moves = []
+    for a, b in zip(settled, settled[1:]):
+        killed = [u for u in b['alive'] if a['alive'][u] and not b['alive'][u]]
+        if killed:
+            moves.append(('kill:' + killed[0], None))
+            continue
+        arr = [x for x in b['arrived'] if x not in a['arrived']]
+        if arr:
+            moves.append(('arrive:%d' % arr[0], None))
+            continue
+        for u in b['pc']:
+            if any(b[v][u] != a[v][u] for v in ('pc', 'runs', 'parseq', 'delq', 'buf', 'collected', 'seenCount', 'wk')):
+                moves.append((u, b['pc'][u]))
+    counts, entries = {}, []
+    for (t, pc) in moves:
+        if ':' in t:
+            entries.append((t, None, 0, None))
+            continue
+        lab = PC_LABEL.get(pc)
+        if lab:
+            counts[(t, lab)] = counts.get((t, lab), 0) + 1
+        entry = (t, lab, counts.get((t, lab), 0), pc)
+        if entries and entries[-1][0] == t:
+            entries[-1] = entry
+        else:
+            entries.append(entry)
+    script = []
+    for e in entries:
+        if ':' in e[0]:
+            script.append(e[0])
+        elif e[1] is None:
+            return None
+        else:
+            script.append('%s>>%s|%s|%d' % (e[0], e[1][0], e[1][1], max(1, e[2])))
+    return script
+
+
 def run(ctx, prop):
     mine = C07_CLAUSES if prop == 'C07' else C08_CLAUSES
     ctx.assumptions += [
@@ -151,6 +206,10 @@ def run(ctx, prop):
             model_results['%s/%s' % (f['name'], onames[name])] = 'reachable (%d steps)' % len(sched)
             for fin in ('stick', 'rr', 'random', 'randomkill'):
                 add_run(f, sched, replies, fin, onames[name])
+            scr = label_script([s for (_a, s) in tr])
+            if scr:
+                for fin in ('stick', 'rr'):
+                    add_run(f, scr, replies, fin, onames[name] + ':aligned')
     for f in fams:
         for k in range(ctx.pick(60, 500)):
             add_run(f, [], [], 'randomkill' if k % 3 == 0 else 'random', 'random')
